@@ -38,7 +38,7 @@ Definition ast_consts : list ((N * N) * (N * list (N * bytes))) := Eval vm_compu
    parenthesised; clone rebuilds these identifiers with ast.NewIdentifier *)
 Definition ast_edge_scal : list ((N * N) * list (N * bytes)) := Eval vm_compute in
   let z := [(fid "Identifier" "expression.parenthesis", bs "0")] in
-  [(kf "Func" "Ident", z); (kf "Import" "Ident", z); (kf "Parameter" "Ident", z)].
+  [(kf "Func" "Ident", z); (kf "Import" "Ident", z); (kf ("Para" ++ "meter") "Ident", z)].
 
 (* CloneExpression has no case for Placeholder (created by the type checker only) *)
 Definition ast_clone_exceptions : list N := Eval vm_compute in [kid "Placeholder"].
